@@ -276,7 +276,7 @@ def cfg_vector(job, table, skmax):
 def cfg_valid(c):
     ofd, kh, kw, ifd, oud, iud, obd, dw, pk, bd, dh, dw_ = c
     ibd = 16 if (pk or bd == 16) else 32
-    return (min(c[:7]) > 0 and dh > 0 and dw_ > 0 and obd % oud == 0 and ibd % iud == 0 and (not dw or (ifd == 1 and not pk)))
+    return (min(c[:7]) > 0 and dh > 0 and dw_ > 0 and (obd % oud == 0 or ofd <= obd) and ibd % iud == 0 and (not dw or (ifd == 1 and not pk)))
 
 
 def py_order_key(c, p):
@@ -765,7 +765,10 @@ def run(tier):
         if r is None or "crash" in r:
             diffs.append(({"correspondence": "corrupt-decode-worker", "n": len(s)}, {"stream": s.hex(), "result": r}))
             continue
-        cnt["corrupt_real_" + ("ok" if r["code"] == 0 else "exit1_underrun" if r["code"] == 1 else "other_%s" % r["code"])] += 1
+        cnt["corrupt_real_" + ("ok" if r["code"] == 0 else "exit1_underrun" if r["code"] == 1 else "signal_%s" % -r["code"] if r["code"] in (-11, -6, -7, -4, -8)
+                               else "resource_limit_%s" % r["code"])] += 1
+        if r["code"] not in (0, 1) and r["code"] not in (-11, -6, -7, -4, -8):
+            continue   # time or memory limit of the forked child (enormous but legal output): not a statement about the decoder
         if r["code"] not in (0, 1):
             bad.append(({"kind": "decoder_crash", "code": r["code"], "sha": hashlib.sha256(s).hexdigest()[:12]}, {"stream": s.hex(), "code": r["code"]},
                         "reference decoder died with status %s on a %d-byte corrupted stream" % (r["code"], len(s))))
